@@ -1,0 +1,33 @@
+//go:build verif
+
+package filters
+
+import (
+	"sort"
+	"time"
+
+	"github.com/ethereum/go-ethereum/rpc"
+)
+
+// Instrumentation for the verification harness (build tag verif only; nothing outside the harness calls it).
+
+// VerifSetFilterDeadline replaces the inactivity deadline of polled filters (package variable `deadline`: the period of
+// PublicFilterAPI.timeoutLoop's ticker, read once when the API is created, and the duration every filter timer is
+// armed / re-armed with) and returns the previous value.
+func VerifSetFilterDeadline(d time.Duration) time.Duration {
+	old := deadline
+	deadline = d
+	return old
+}
+
+// VerifFilterIDs returns the ids of the installed filters (the keys of api.filters), sorted.
+func (api *PublicFilterAPI) VerifFilterIDs() []rpc.ID {
+	api.filtersMu.Lock()
+	defer api.filtersMu.Unlock()
+	ids := make([]rpc.ID, 0, len(api.filters))
+	for id := range api.filters {
+		ids = append(ids, id)
+	}
+	sort.Slice(ids, func(i, j int) bool { return ids[i] < ids[j] })
+	return ids
+}
